@@ -3,7 +3,6 @@
 -/
 import CosetProofs.Cbor.Roundtrip
 import CosetModel.Api
-import CosetProofs.Ties
 namespace Coset.Props.C15
 open Coset Coset.Cbor
 
@@ -115,11 +114,6 @@ example : hdrFromValue (.map [(.int 9223372036854775808, .null)]) = .err .outOfR
 example : Timestamp.fromValue (.int (-9223372036854775808)) = .ok (.wholeSeconds (-9223372036854775808)) := by decide
 
 
-/-! ### ties to the source text (regenerated on every run, compared in the kernel with the transcribed tree) -/
-/-- the integer conversion sites of the source (`try_into`, `try_from`, `as`, `from`/`into`) are exactly those the model was transcribed from. -/
-theorem tie_narrowing_sites : Coset.Gen.narrowingSites = Coset.Pinned.narrowingSites := Coset.Ties.narrowing_sites
-
-#print axioms tie_narrowing_sites
 #print axioms narrow_i64
 #print axioms narrow_u64
 #print axioms narrow_exact
